@@ -82,6 +82,34 @@ class PandasDropInvalidRows(Contract):
 
     def setup(self, I):
         PL.install(I)
+        import pandas as pd
+        import pandera.backends.pandas.base as PB
+        import pandera.backends.pandas.error_formatters as EF
+
+        # multiindex_label_text(index): the text of each label - ONE function of the label (it renders label by label, whole numbers
+        # without a fractional part: C11_label_text below checks that it does not depend on the other labels of the index)
+        class _LabelTexts:
+            __pyvc_symbolic__ = True
+
+            def __init__(self, owner):
+                self.owner = owner
+
+        def label_text(I_, index):
+            if not isinstance(index, PL.IndexVal) or not getattr(index.owner.space, "multi", False):
+                raise core.Unsupported("multiindex_label_text of something other than the MultiIndex of a modelled object")
+            return _LabelTexts(index.owner)
+
+        for mod in (PB, EF):
+            if hasattr(mod, "multiindex_label_text"):
+                I.models[id(mod.multiindex_label_text)] = label_text
+        orig_series = I.models.get(id(pd.Series))
+
+        def series_ctor(I_, data=None, *a, **kw):
+            if isinstance(data, _LabelTexts):
+                return PL._TupleSeries(data.owner, rendered=True)
+            return orig_series(I_, data, *a, **kw)
+
+        I.models[id(pd.Series)] = series_ctor
 
     def make_args(self):
         from pandera.api.base.error_handler import ErrorHandler
